@@ -113,3 +113,8 @@ pub proof fn lemma_start_mono(blobs: Seq<IndexBlob>, i: int, j: int)
         lemma_start_mono(blobs, i - 1, j - 1);
     }
 }
+
+// <[IndexBlob]>::first (definition)
+pub fn vfirst_blob(v: &Vec<IndexBlob>) -> (r: Option<&IndexBlob>)
+    ensures v@.len() == 0 ==> r is None, v@.len() > 0 ==> r == Some(&v@[0]),
+{ if v.len() == 0 { None } else { Some(&v[0]) } }
